@@ -457,10 +457,9 @@ Qed.
 Lemma col_prune_sound : forall c op v v',
   Forall (fun v => val_ok v = true) (zhist c) -> val_ok v = true -> List.In v' (zhist c) ->
   col_might_match c op v = false ->
-  (op = ONe -> forall u, List.In u (zhist c) -> zcmp u v <> None) ->
   cmp_result op v' v <> Some (VBool true).
 Proof.
-  intros c op v v' Hok Hv Hin Hm Hne.
+  intros c op v v' Hok Hv Hin Hm.
   unfold col_might_match in Hm. destruct (zdirty c); [discriminate|].
   pose proof (zinv_zone_of _ Hok) as [Hr Hn Hmns Hmxs Hmn Hmx].
   rewrite Forall_forall in Hok. pose proof (Hok v' Hin) as Hv'.
@@ -557,35 +556,28 @@ Lemma zone_ne_odd_app : forall st a b,
   zone_ne_odd st a = false /\ zone_ne_odd st b = false.
 Proof. intros st a b H. rewrite existsb_app in H. apply orb_false_iff in H. exact H. Qed.
 
-Lemma leaf_prune : forall st op k v v' x c,
+Lemma leaf_prune : forall st op k v v' (x : string) c,
   zone_ok st -> val_ok v = true ->
   node_might_match st k op v = false ->
-  (op = ONe -> zone_ne_odd st (ECmp ONe (EProp x k) (ELit v)) = false) ->
   reads_node st c -> fprop st c k = Some v' ->
   cmp_result op v' v <> Some (VBool true).
 Proof.
-  intros st op k v v' x c Hz Hv Hm Hodd Hrd Hf.
+  intros st op k v v' x c Hz Hv Hm Hrd Hf.
   unfold node_might_match in Hm.
   destruct (lookup k (zcols st)) as [zc|] eqn:El; [|discriminate].
   destruct (Hz k zc El) as [Hok Hcov].
   destruct (Hrd k v' Hf) as (n & Hn & Hl).
   apply (col_prune_sound zc op v v' Hok Hv (Hcov n v' Hn Hl) Hm).
-  intros -> u Hu Hnone. specialize (Hodd eq_refl).
-  unfold zone_ne_odd in Hodd. cbn [ne_leaves existsb fst snd] in Hodd. rewrite El in Hodd.
-  rewrite orb_false_r in Hodd.
-  assert (Ht : existsb (fun v'0 => match zcmp v'0 v with None => true | Some _ => false end) (zhist zc) = true).
-  { apply existsb_exists. exists u. split; [exact Hu|]. rewrite Hnone. reflexivity. }
-  congruence.
 Qed.
 
 Lemma zone_prune_eval : forall st cs r e,
   zone_ok st ->
   (forall x c, List.In x (expr_props e) -> row_look cs r x = Some c -> reads_node st c) ->
-  lits_ok e = true -> zone_check st e = Some false -> zone_ne_odd st e = false ->
+  lits_ok e = true -> zone_check st e = Some false ->
   eval (row_look cs r) cell_val (fprop st) (cell_labels st) e <> Some (VBool true).
 Proof.
   intros st cs r e Hz. induction e as [v|y|y k|op a IHa b IHb|a IHa b IHb|a IHa b IHb|a IHa|a IHa|a IHa|y l|l y];
-    intros Hrd Hl Hc Ho; cbn [zone_check] in Hc; try discriminate.
+    intros Hrd Hl Hc; cbn [zone_check] in Hc; try discriminate.
   - (* ECmp *)
     destruct a as [va|ya|xa ka|? ? ?|? ?|? ?|?|?|?|? ?|? ?]; try discriminate;
     destruct b as [vb|yb|xb kb|? ? ?|? ?|? ?|?|?|?|? ?|? ?]; try discriminate.
@@ -595,20 +587,17 @@ Proof.
       destruct (row_look cs r xb) as [c|] eqn:Ec; cbn [obind]; [|discriminate].
       destruct (fprop st c kb) as [v'|] eqn:Ef; cbn [obind]; [|discriminate].
       rewrite cmp_result_flip.
-      apply (leaf_prune st (flip_op op) kb va v' xb c Hz Hl Hc); [| |exact Ef].
-      * intros Hop. assert (op = ONe) by (destruct op; cbn in Hop; congruence). subst op. exact Ho.
-      * apply (Hrd xb c); [cbn; auto|exact Ec].
+      apply (leaf_prune st (flip_op op) kb va v' xb c Hz Hl Hc); [|exact Ef].
+      apply (Hrd xb c); [cbn; auto|exact Ec].
     + (* prop op lit *)
       injection Hc as Hc. cbn [lits_ok] in Hl. apply andb_true_iff in Hl. destruct Hl as [_ Hl].
       cbn [eval obind].
       destruct (row_look cs r xa) as [c|] eqn:Ec; cbn [obind]; [|discriminate].
       destruct (fprop st c ka) as [v'|] eqn:Ef; cbn [obind]; [|discriminate].
-      apply (leaf_prune st op ka vb v' xa c Hz Hl Hc); [| |exact Ef].
-      * intros ->. exact Ho.
-      * apply (Hrd xa c); [cbn; auto|exact Ec].
+      apply (leaf_prune st op ka vb v' xa c Hz Hl Hc); [|exact Ef].
+      apply (Hrd xa c); [cbn; auto|exact Ec].
   - (* EAnd *)
     cbn [lits_ok] in Hl. apply andb_true_iff in Hl. destruct Hl as [Hla Hlb].
-    destruct (zone_ne_odd_app st a b Ho) as [Hoa Hob].
     cbn [expr_props] in Hrd.
     assert (Hra : forall x c, List.In x (expr_props a) -> row_look cs r x = Some c -> reads_node st c)
       by (intros x c Hx; apply Hrd, in_or_app; auto).
@@ -625,7 +614,6 @@ Proof.
       try (apply IHa; auto; fail); try (apply IHb; auto; fail).
   - (* EOr *)
     cbn [lits_ok] in Hl. apply andb_true_iff in Hl. destruct Hl as [Hla Hlb].
-    destruct (zone_ne_odd_app st a b Ho) as [Hoa Hob].
     cbn [expr_props] in Hrd.
     assert (Hra : forall x c, List.In x (expr_props a) -> row_look cs r x = Some c -> reads_node st c)
       by (intros x c Hx; apply Hrd, in_or_app; auto).
@@ -643,12 +631,12 @@ Proof.
 Qed.
 
 Lemma zone_prune_sound : forall st e cs r,
-  zone_ok st -> lits_ok e = true -> zone_check st e = Some false -> zone_ne_odd st e = false ->
+  zone_ok st -> lits_ok e = true -> zone_check st e = Some false ->
   (forall x c, List.In x (expr_props e) -> row_look cs r x = Some c -> reads_node st c) ->
   passes_row st cs r e = false.
 Proof.
-  intros st e cs r Hz Hl Hc Ho Hrd.
-  pose proof (zone_prune_eval st cs r e Hz Hrd Hl Hc Ho) as H.
+  intros st e cs r Hz Hl Hc Hrd.
+  pose proof (zone_prune_eval st cs r e Hz Hrd Hl Hc) as H.
   unfold passes_row, passes.
   destruct (eval (row_look cs r) cell_val (fprop st) (cell_labels st) e) as [[|[|]| | | |]|]; try reflexivity.
   exfalso. apply H. reflexivity.
@@ -943,14 +931,15 @@ Qed.
 Lemma Some_inj : forall {A} (a b : A), Some a = Some b -> a = b.
 Proof. intros A a b H. injection H as H. exact H. Qed.
 
-Lemma index_path_eq : forall st x label e t,
+(** the pre-08d6ceb path (no re-application of the predicate) was right only for conjunctions of equalities *)
+Lemma index_path_pre_eq : forall st x label e t,
   store_ok st -> vals_ok st -> lits_ok e = true -> only_eq_conds x e = true ->
   (forall c, List.In c (collect_eq x e) -> num_mix st (fst c) (snd c) = false) ->
-  try_index st (idx_of st) e (LScan x label) = Some t ->
+  try_index_pre st (idx_of st) e (LScan x label) = Some t ->
   t = filter_tbl (fun r => passes_row st [x] r e) (mkT [x] (scan_rows st label)).
 Proof.
   intros st x label e t Hs Hv Hl Ho Hm Ht.
-  unfold try_index in Ht.
+  unfold try_index_pre in Ht.
   destruct (collect_eq x e) as [|c0 rest] eqn:Ec; [discriminate|].
   destruct (existsb _ (c0 :: rest)); [|discriminate].
   apply Some_inj in Ht. subst t.
@@ -964,6 +953,68 @@ Proof.
               (conds_sat (c0 :: rest)) (lblb label) (nodes st))|].
   - intros n Hn. rewrite <- Ec. apply eq_conds_passes; try assumption. rewrite Ec. exact Hm.
   - f_equal. apply filter_ext. intros n. apply andb_comm.
+Qed.
+
+(** a row that passes the whole predicate satisfies every equality conjunct the index was asked for *)
+Lemma passes_conds : forall st x n e, store_ok st -> vals_ok st -> List.In n (nodes st) ->
+  lits_ok e = true ->
+  (forall c, List.In c (collect_eq x e) -> num_mix st (fst c) (snd c) = false) ->
+  passes_row st [x] [CNode (nid n)] e = true -> conds_sat (collect_eq x e) n = true.
+Proof.
+  intros st x n e Hs Hv Hn.
+  induction e as [v|y|y k|op a IHa b IHb|a IHa b IHb|a IHa b IHb|a IHa|a IHa|a IHa|y l|l y];
+    intros Hl Hm Hp; try reflexivity.
+  - destruct op; try reflexivity.
+    destruct a as [va|ya|xa ka|? ? ?|? ?|? ?|?|?|?|? ?|? ?]; try reflexivity;
+    destruct b as [vb|yb|xb kb|? ? ?|? ?|? ?|?|?|?|? ?|? ?]; try reflexivity.
+    + cbn [lits_ok] in Hl. apply andb_true_iff in Hl. destruct Hl as [Hl _].
+      cbn [collect_eq] in Hm |- *. destruct (String.eqb xb x) eqn:Ex; [|reflexivity]. apply String.eqb_eq in Ex. subst xb.
+      unfold conds_sat. cbn [forallb]. rewrite andb_true_r.
+      rewrite <- (eq_leaf_passes st x n kb va Hs Hv Hn Hl (Hm (kb, va) (or_introl eq_refl))).
+      unfold passes_row, passes in Hp. cbn [eval obind] in Hp.
+      destruct (let? c := row_look [x] [CNode (nid n)] x in fprop st c kb) as [v'|]; cbn [obind cmp_result] in Hp; [|discriminate Hp].
+      rewrite (feq_sym va v') in Hp. destruct (feq v' va); [reflexivity|discriminate Hp].
+    + cbn [lits_ok] in Hl. apply andb_true_iff in Hl. destruct Hl as [_ Hl].
+      cbn [collect_eq] in Hm |- *. destruct (String.eqb xa x) eqn:Ex; [|reflexivity]. apply String.eqb_eq in Ex. subst xa.
+      unfold conds_sat. cbn [forallb]. rewrite andb_true_r.
+      rewrite <- (eq_leaf_passes st x n ka vb Hs Hv Hn Hl (Hm (ka, vb) (or_introl eq_refl))).
+      unfold passes_row, passes in Hp. cbn [eval obind] in Hp.
+      destruct (let? c := row_look [x] [CNode (nid n)] x in fprop st c ka) as [v'|]; cbn [obind cmp_result] in Hp; [|discriminate Hp].
+      destruct (feq v' vb); [reflexivity|discriminate Hp].
+  - cbn [lits_ok] in Hl. apply andb_true_iff in Hl. destruct Hl as [Hla Hlb].
+    cbn [collect_eq] in Hm |- *. rewrite passes_and in Hp. apply andb_true_iff in Hp. destruct Hp as [Hpa Hpb].
+    unfold conds_sat. rewrite forallb_app. fold (conds_sat (collect_eq x a) n) (conds_sat (collect_eq x b) n).
+    rewrite IHa, IHb; auto; intros c Hc; apply Hm, in_or_app; auto.
+Qed.
+
+(** the index path (with the predicate re-applied, 08d6ceb) for ANY predicate *)
+Lemma index_path_eq : forall st x label e t,
+  store_ok st -> vals_ok st -> lits_ok e = true ->
+  (forall c, List.In c (collect_eq x e) -> num_mix st (fst c) (snd c) = false) ->
+  try_index st (idx_of st) e (LScan x label) = Some t ->
+  t = filter_tbl (fun r => passes_row st [x] r e) (mkT [x] (scan_rows st label)).
+Proof.
+  intros st x label e t Hs Hv Hl Hm Ht.
+  unfold try_index in Ht. destruct (try_index_pre st (idx_of st) e (LScan x label)) as [t0|] eqn:E0; [|discriminate].
+  apply Some_inj in Ht. subst t.
+  unfold try_index_pre in E0.
+  destruct (collect_eq x e) as [|c0 rest] eqn:Ec; [discriminate|].
+  destruct (existsb _ (c0 :: rest)); [|discriminate].
+  apply Some_inj in E0. subst t0.
+  rewrite (find_by_props_spec st (c0 :: rest) Hs) by discriminate.
+  rewrite (retain_label_spec st label _ Hs).
+  change (scan_rows st label) with (map (fun n => [CNode (nid n)]) (filter (lblb label) (nodes st))).
+  unfold filter_tbl, mkT. cbn [cols rows]. f_equal.
+  rewrite map_map.
+  assert (HF : forall L : node -> bool,
+             filter (fun r => passes_row st [x] r e) (map (fun n => [CNode (nid n)]) (filter L (nodes st)))
+             = map (fun n => [CNode (nid n)]) (filter (fun n => L n && passes_row st [x] [CNode (nid n)] e) (nodes st))).
+  { intros L. apply filter_map_rows. intros; reflexivity. }
+  rewrite !HF.
+  f_equal. apply filter_ext_in. intros n Hn.
+  destruct (passes_row st [x] [CNode (nid n)] e) eqn:Ep; [|rewrite !andb_false_r; reflexivity].
+  rewrite !andb_true_r. rewrite <- Ec.
+  rewrite (passes_conds st x n e Hs Hv Hn Hl ltac:(rewrite Ec; exact Hm) Ep). reflexivity.
 Qed.
 
 
@@ -1018,8 +1069,7 @@ Proof.
   intros h m incl v' Hok Hm Hin Hz. unfold rng_test.
   assert (N : cmp_result (if incl then OGe else OGt) v' m <> Some (VBool true)).
   { apply (col_prune_sound (mkZcol h false) (if incl then OGe else OGt) m v' Hok Hm Hin).
-    - unfold col_might_match. cbn [zdirty zhist]. destruct incl; exact Hz.
-    - intros E. destruct incl; discriminate. }
+    unfold col_might_match. cbn [zdirty zhist]. destruct incl; exact Hz. }
   destruct (cmp_result (if incl then OGe else OGt) v' m) as [[|[|]| | | |]|]; try reflexivity.
   exfalso. apply N. reflexivity.
 Qed.
@@ -1031,8 +1081,7 @@ Proof.
   intros h m incl v' Hok Hm Hin Hz. unfold rng_test.
   assert (N : cmp_result (if incl then OLe else OLt) v' m <> Some (VBool true)).
   { apply (col_prune_sound (mkZcol h false) (if incl then OLe else OLt) m v' Hok Hm Hin).
-    - unfold col_might_match. cbn [zdirty zhist]. destruct incl; exact Hz.
-    - intros E. destruct incl; discriminate. }
+    unfold col_might_match. cbn [zdirty zhist]. destruct incl; exact Hz. }
   destruct (cmp_result (if incl then OLe else OLt) v' m) as [[|[|]| | | |]|]; try reflexivity.
   exfalso. apply N. reflexivity.
 Qed.
@@ -1393,7 +1442,7 @@ Proof.
   intros st i0 steps. induction steps as [|s r IH]; intros is_first f added f' a H.
   - cbn in H. injection H as <- <-. cbn. lia.
   - cbn [fact_steps] in H.
-    destruct (grow_forest st is_first (if is_first then i0 else 1%nat) (s_dir s) (s_type s) f) as [g|]; cbn [rbind] in H; [|discriminate].
+    destruct (grow_forest st true (if is_first then i0 else 1%nat) (s_dir s) (s_type s) f) as [g|]; cbn [rbind] in H; [|discriminate].
     destruct (snd g); apply IH in H; cbn [List.length]; lia.
 Qed.
 
@@ -1434,28 +1483,26 @@ Lemma fact_steps_flat_later : forall st i0 steps f cs rs added f' a t,
   (forall pl, List.In pl (lpathsF f) -> exists e n, snd pl = [CEdge e; CNode n]) ->
   (forall pl, List.In pl (lpathsF f) -> List.length (pl_join pl) = List.length cs) ->
   (exists seen e to, cs = seen ++ [e; to] /\ ~ List.In to seen /\ to <> e /\ steps_path cs (Some to) steps) ->
-  forallb (type_cond st) steps = true ->
   flat_steps st (mkT cs rs) steps = Ok t ->
   fact_steps st i0 steps false f added = Ok (f', a) -> a = (added + List.length steps)%nat ->
   flat_map paths f' = rows t.
 Proof.
   intros st i0 steps. induction steps as [|s r IH];
-    intros f cs rs added f' a t Hrs Hleaf Hlen Hcs Htc Hflat Hfact Ha.
+    intros f cs rs added f' a t Hrs Hleaf Hlen Hcs Hflat Hfact Ha.
   - cbn in Hflat, Hfact. injection Hflat as <-. injection Hfact as <- <-.
     cbn [rows mkT]. rewrite Hrs. apply paths_forest.
   - destruct Hcs as (seen & e & to & Ecs & Hnin & Hne & Hsp).
     cbn [steps_path] in Hsp. destruct Hsp as [Hfrom Hsp].
     destruct (s_cols s) as [|e2 [|to2 [|? ?]]] eqn:Esc; try contradiction.
     destruct Hsp as (Hnin2 & Hne2 & Hsp).
-    cbn [forallb] in Htc. apply andb_true_iff in Htc. destruct Htc as [Htc1 Htc2].
     cbn [flat_steps cols rows mkT] in Hflat. rewrite Hfrom in Hflat.
     assert (Hpos : pos_first to cs = Some (List.length seen + 1)%nat)
       by (rewrite Ecs; apply pos_first_last; assumption).
     rewrite Hpos in Hflat. cbn [of_opt rbind] in Hflat.
     destruct (expand_rows st true cs to (s_dir s) (s_type s) rs) as [rs1|] eqn:Eex; cbn [rbind] in Hflat; [|discriminate].
     rewrite Hrs in Eex.
-    destruct (one_step st false 1%nat (s_dir s) (s_type s) cs to f rs1) as (f1 & Hg & Hl1 & Hrs1).
-    + intros x. apply neighbors_ci. exact Htc1.
+    destruct (one_step st true 1%nat (s_dir s) (s_type s) cs to f rs1) as (f1 & Hg & Hl1 & Hrs1).
+    + intros x. reflexivity.
     + intros pl n Hpl Hsrc. destruct (Hleaf pl Hpl) as (e' & n' & Hsn).
       pose proof (Hlen pl Hpl) as Hl. unfold pl_join in Hl, Hsrc. rewrite Hsn in Hl, Hsrc.
       rewrite Ecs, !app_length in Hl. cbn [List.length] in Hl.
@@ -1502,12 +1549,12 @@ Qed.
 
 Lemma fact_chain_flat : forall st b steps t a rs,
   rows_wf b ->
-  steps <> [] -> steps_path (cols b) None steps -> steps_no_type_case st steps = true ->
+  steps <> [] -> steps_path (cols b) None steps ->
   flat_steps st b steps = Ok t -> fact_chain st b steps = Ok (a, rs) ->
   (a = List.length steps \/ rows b = []) ->
   rs = rows t /\ chain_cols b steps = cols t.
 Proof.
-  intros st b steps t a rs Hwf Hne Hsp Htc Hflat Hfact Ha.
+  intros st b steps t a rs Hwf Hne Hsp Hflat Hfact Ha.
   split; [|unfold chain_cols; symmetry; eapply flat_steps_cols; exact Hflat].
   destruct steps as [|s0 r]; [congruence|]. clear Hne.
   unfold fact_chain in Hfact.
@@ -1819,38 +1866,17 @@ Section Classes.
   Hypothesis Hk : k_c10_any st p0 = false.
 
   Lemma k_split :
-    k_zone_edge st p0 = false /\ k_index_residual st p0 = false /\ k_index_num st p0 = false /\
-    k_range_num st p0 = false /\ k_fact_missing_level st p0 = false /\ k_fact_type_case st p0 = false /\
-    k_fact_not_path p0 = false /\ k_fact_agg_distinct p0 = false /\ k_zone_ne st p0 = false.
+    k_index_num st p0 = false /\ k_range_num st p0 = false /\ k_fact_missing_level st p0 = false /\
+    k_fact_not_path p0 = false.
   Proof.
     pose proof Hk as H. unfold k_c10_any in H. rewrite !orb_false_iff in H. tauto.
   Qed.
 
-  Lemma K_zone_edge : forall e i x, List.In (LFilter e i) (subplans p0) -> zone_check st e = Some false ->
-    List.In x (expr_props e) -> ~ List.In x (plan_edge_vars p0).
-  Proof.
-    intros e i x Hs Hz Hx Hin. destruct k_split as (H & _).
-    pose proof (existsb_false_In _ _ _ H Hs) as Hf. cbn beta iota in Hf. rewrite Hz in Hf.
-    pose proof (existsb_false_In _ _ _ Hf Hx) as Hf2. cbn beta in Hf2.
-    assert (existsb (String.eqb x) (plan_edge_vars p0) = true)
-      by (apply existsb_exists; exists x; split; [exact Hin|apply String.eqb_refl]).
-    congruence.
-  Qed.
-
-  Lemma K_zone_ne : forall e i, List.In (LFilter e i) (subplans p0) -> zone_check st e = Some false ->
-    zone_ne_odd st e = false.
-  Proof.
-    intros e i Hs Hz. destruct k_split as (_ & _ & _ & _ & _ & _ & _ & _ & H).
-    pose proof (existsb_false_In _ _ _ H Hs) as Hf. cbn beta iota in Hf. rewrite Hz in Hf. exact Hf.
-  Qed.
-
   Lemma K_index : forall s x l e, List.In s (subplans p0) -> index_applies st s = Some (x, l, e) ->
-    only_eq_conds x e = true /\ forall c, List.In c (collect_eq x e) -> num_mix st (fst c) (snd c) = false.
+    forall c, List.In c (collect_eq x e) -> num_mix st (fst c) (snd c) = false.
   Proof.
-    intros s x l e Hs Hi. destruct k_split as (_ & H1 & H2 & _).
-    pose proof (existsb_false_In _ _ _ H1 Hs) as Hf1. cbn beta in Hf1. rewrite Hi in Hf1.
+    intros s x l e Hs Hi. destruct k_split as (H2 & _).
     pose proof (existsb_false_In _ _ _ H2 Hs) as Hf2. cbn beta in Hf2. rewrite Hi in Hf2.
-    split; [apply negb_false_iff in Hf1; exact Hf1|].
     intros c Hc. exact (existsb_false_In _ _ _ Hf2 Hc).
   Qed.
 
@@ -1858,7 +1884,7 @@ Section Classes.
     index_applies st s = None ->
     forall v, List.In v vs -> num_mix st k v = false /\ is_bool v = false.
   Proof.
-    intros s k vs Hs Hr Hi v Hv. destruct k_split as (_ & _ & _ & H & _).
+    intros s k vs Hs Hr Hi v Hv. destruct k_split as (_ & H & _).
     pose proof (existsb_false_In _ _ _ H Hs) as Hf. cbn beta in Hf. rewrite Hr, Hi in Hf.
     cbn [negb andb] in Hf. pose proof (existsb_false_In _ _ _ Hf Hv) as Hf2. cbn beta in Hf2.
     apply orb_false_iff in Hf2. exact Hf2.
@@ -1876,7 +1902,7 @@ Section Classes.
     exists a rs, fact_chain st b (fst (chain_steps s)) = Ok (a, rs) /\
                  (a = List.length (fst (chain_steps s)) \/ rows b = []).
   Proof.
-    intros s b Hs Hl Hr. destruct k_split as (_ & _ & _ & _ & H & _).
+    intros s b Hs Hl Hr. destruct k_split as (_ & _ & H & _).
     pose proof (existsb_false_In _ _ _ H (in_fact_chains s Hs Hl)) as Hf. cbn beta in Hf.
     rewrite Hr in Hf. destruct (fact_chain st b (fst (chain_steps s))) as [[a rs]|]; [|discriminate].
     exists a, rs. split; [reflexivity|].
@@ -1885,32 +1911,20 @@ Section Classes.
     - right. destruct (rows b); [reflexivity|discriminate].
   Qed.
 
-  Lemma K_type_case : forall s, List.In s (subplans p0) -> (2 <= List.length (fst (chain_steps s)))%nat ->
-    steps_no_type_case st (fst (chain_steps s)) = true.
-  Proof.
-    intros s Hs Hl. destruct k_split as (_ & _ & _ & _ & _ & H & _).
-    pose proof (existsb_false_In _ _ _ H (in_fact_chains s Hs Hl)) as Hf. cbn beta in Hf.
-    unfold steps_no_type_case. eapply existsb_forallb; [|exact Hf].
-    intros x _ Hx. cbn beta in Hx. destruct (s_type x) as [t|]; [|reflexivity].
-    eapply existsb_forallb; [|exact Hx]. intros e _ He. cbn beta in He.
-    destruct (eq_ci (etype e) t), (String.eqb (etype e) t); cbn in *; congruence.
-  Qed.
-
   Lemma K_not_path : forall s, List.In s (subplans p0) -> (2 <= List.length (fst (chain_steps s)))%nat ->
     not_a_path None (fst (chain_steps s)) = false.
   Proof.
-    intros s Hs Hl. destruct k_split as (_ & _ & _ & _ & _ & _ & H & _).
+    intros s Hs Hl. destruct k_split as (_ & _ & _ & H).
     exact (existsb_false_In _ _ _ H (in_fact_chains s Hs Hl)).
   Qed.
 
-  Lemma K_agg_distinct : forall aggs i, List.In (LAggregate [] aggs i) (subplans p0) ->
-    (2 <= List.length (fst (chain_steps i)))%nat ->
+  Lemma K_agg_distinct : forall (aggs : list aggx),
     forallb (fun a => match simple_count a with Some _ => true | None => false end) aggs = true ->
     existsb ag_distinct aggs = false.
   Proof.
-    intros aggs i Hs Hl Hsc. destruct k_split as (_ & _ & _ & _ & _ & _ & _ & H & _).
-    pose proof (existsb_false_In _ _ _ H Hs) as Hf. cbn beta iota in Hf.
-    apply Nat.leb_le in Hl. rewrite Hl, Hsc in Hf. exact Hf.
+    intros aggs Hsc. induction aggs as [|a aggs IH]; [reflexivity|]. cbn [forallb existsb] in *.
+    apply andb_true_iff in Hsc. destruct Hsc as [Ha Hr]. rewrite (IH Hr), orb_false_r.
+    unfold simple_count in Ha. destruct (ag_distinct a); [discriminate Ha|reflexivity].
   Qed.
 End Classes.
 
@@ -2005,7 +2019,9 @@ Lemma try_index_applies : forall st x label e t',
   try_index st (idx_of st) e (LScan x label) = Some t' ->
   index_applies st (LFilter e (LScan x label)) = Some (x, label, e).
 Proof.
-  intros st x label e t' H. unfold try_index in H. unfold index_applies.
+  intros st x label e t' H. unfold try_index in H.
+  destruct (try_index_pre st (idx_of st) e (LScan x label)) as [t0|] eqn:E0; [|discriminate]. clear H.
+  unfold try_index_pre in E0. unfold index_applies.
   destruct (collect_eq x e); [discriminate|]. destruct (existsb _ _); [reflexivity|discriminate].
 Qed.
 
@@ -2078,7 +2094,7 @@ Section ChainCorrect.
     { rewrite Hcols. apply chain_steps_path; try assumption. apply (K_not_path st p0 Hk q Hin Hl). }
     assert (Hne : fst (chain_steps q) <> []).
     { intros E. rewrite E in Hl. cbn in Hl. lia. }
-    destruct (fact_chain_flat st tb _ t a rs Hwf Hne Hsp (K_type_case st p0 Hk q Hin Hl) H Hfc Ha) as [-> Hcc].
+    destruct (fact_chain_flat st tb _ t a rs Hwf Hne Hsp H Hfc Ha) as [-> Hcc].
     exists tb, a. auto.
   Qed.
 
@@ -2121,25 +2137,22 @@ Section ChainCorrect.
       pose proof (lits_sub p0 p q Hlits Hin) as Hle.
       cbn [runc]. destruct (runc o st q) as [rin cin] eqn:E. cbn [fst] in Hrin. subst rin. cbn [fst].
       destruct (chain_typed st q ti Hco Ei) as [Hcols Htyped].
-      destruct (o_zone o && match zone_check st p with Some false => true | _ => false end) eqn:Ez.
-      + apply andb_true_iff in Ez. destruct Ez as [_ Ez].
+      destruct (o_zone o && is_scan q && match zone_check st p with Some false => true | _ => false end) eqn:Ez.
+      + apply andb_true_iff in Ez. destruct Ez as [Ez1 Ez]. apply andb_true_iff in Ez1. destruct Ez1 as [_ Hsc].
         assert (Hzc : zone_check st p = Some false) by (destruct (zone_check st p) as [[|]|]; congruence).
         rewrite (plan_cols_chain st q ti Hco Ei). cbn [rbind]. unfold filter_tbl, mkT. f_equal. f_equal.
         symmetry. apply filter_nil. intros r Hr.
-        apply zone_prune_sound; [exact Hzo|exact Hle|exact Hzc|exact (K_zone_ne st p0 Hk p q Hin Hzc)|].
+        apply zone_prune_sound; [exact Hzo|exact Hle|exact Hzc|].
         intros x c Hx Hl. unfold tbl_typed in Htyped. rewrite Forall_forall in Htyped. specialize (Htyped r Hr).
         destruct (typed_row_look _ _ _ _ _ Htyped Hl) as [i ->]; [|apply reads_node_cnode].
-        intros Hie.
-        destruct (edge_cols_sub p0 q x (sub_filter_input _ _ _ Hin) Hie) as [->|Hv].
-        * exact (Hanon p q Hin Hx).
-        * exact (K_zone_edge st p0 Hk p q x Hin Hzc Hx Hv).
+        intros Hie. clear -Hsc Hie. destruct q; try discriminate Hsc. cbn [chain_edge_cols] in Hie. exact Hie.
       + destruct (if o_index o then try_index st (idx_of st) p q else None) as [t'|] eqn:Ei2.
         * destruct (o_index o); [|discriminate].
           destruct q; try (cbn in Ei2; discriminate).
           cbn in Ei. injection Ei as <-. f_equal. cbn [cols mkT].
           pose proof (try_index_applies _ _ _ _ _ Ei2) as Hia.
-          destruct (K_index st p0 Hk _ _ _ _ Hin Hia) as [Ho Hm].
-          exact (index_path_eq st x label p t' Hso Hvo Hle Ho Hm Ei2).
+          pose proof (K_index st p0 Hk _ _ _ _ Hin Hia) as Hm.
+          exact (index_path_eq st x label p t' Hso Hvo Hle Hm Ei2).
         * destruct (if o_range o then try_range st (o_zone o) p q else None) as [t'|] eqn:Er.
           -- destruct (o_range o); [|discriminate].
              destruct q; try (cbn in Er; discriminate).
@@ -2157,7 +2170,7 @@ Definition is_simple (a : aggx) : bool := match simple_count a with Some _ => tr
 
 Lemma simple_arg : forall a, is_simple a = true -> ag_arg a = None \/ exists x, ag_arg a = Some (EVar x).
 Proof.
-  intros a H. unfold is_simple, simple_count in H.
+  intros a H. unfold is_simple, simple_count, simple_count_pre in H. destruct (ag_distinct a); [discriminate H|].
   destruct (ag_fn a); destruct (ag_arg a) as [[]|]; try discriminate; eauto.
 Qed.
 
@@ -2217,7 +2230,7 @@ Proof.
     cbn [combine mapM fst snd map]. rewrite (IH y Ht Hs2 Hd2 Ho2 eq_refl).
     assert (Hv : agg_value a (match x with Some c => map (fun r => cell_val (nth c r (CVal VNull))) rs | None => [] end)
                            (List.length rs) = Ok (VInt (Z.of_nat (List.length rs)))).
-    { unfold is_simple, simple_count in Hs1. unfold agg_arg_ok in Ho1. unfold agg_value. rewrite Hd1.
+    { unfold is_simple, simple_count, simple_count_pre in Hs1. rewrite Hd1 in Hs1. unfold agg_arg_ok in Ho1. unfold agg_value. rewrite Hd1.
       destruct (ag_fn a) eqn:Efn; destruct (ag_arg a) as [[]|] eqn:Earg; try discriminate; try reflexivity.
       cbn [key_col] in Ex. destruct (pos_last x0 cs) as [c|] eqn:Ep; cbn [of_opt rbind] in Ex; [|discriminate].
       injection Ex as <-. do 2 f_equal. f_equal. apply nonnull_ints_length.
@@ -2229,7 +2242,7 @@ Qed.
 
 Lemma simple_coltype : forall a, is_simple a = true -> agg_coltype a = TInt.
 Proof.
-  intros a H. unfold is_simple, simple_count in H. unfold agg_coltype.
+  intros a H. unfold is_simple, simple_count, simple_count_pre in H. destruct (ag_distinct a); [discriminate H|]. unfold agg_coltype.
   destruct (ag_fn a); try reflexivity; destruct (ag_arg a) as [[]|]; discriminate.
 Qed.
 
@@ -2303,7 +2316,7 @@ Section TopCorrect.
     chain_hygiene (plan_chain p) -> chain_tos_ok (plan_chain p) = true -> plan_correct st p.
   Proof.
     induction p; intros Hin Hco Hhy Hto; cbn [plan_chain] in Hco, Hhy, Hto;
-      try (apply (chain_correct st p0 Hso Hvo Hzo Hk Hanon Hlits _ Hin Hco Hhy Hto); apply subplans_refl);
+      try (apply (chain_correct st p0 Hso Hvo Hzo Hk Hlits _ Hin Hco Hhy Hto); apply subplans_refl);
       try (assert (Hi : List.In p (subplans p0)) by (eapply subplans_trans; [exact Hin|right; apply subplans_refl]);
            specialize (IHp Hi Hco Hhy Hto)).
     1-6: intros o t H; cbn [sem_ops] in H;
@@ -2321,11 +2334,11 @@ Section TopCorrect.
     apply andb_true_iff in Ef. destruct Ef as [Ef Hsc]. apply andb_true_iff in Ef. destruct Ef as [_ Hl].
     apply Nat.leb_le in Hl.
     assert (Hcorr : plan_correct st (snd (chain_steps p))).
-    { apply (chain_correct st p0 Hso Hvo Hzo Hk Hanon Hlits p Hi Hco Hhy Hto). apply chain_steps_sub. }
+    { apply (chain_correct st p0 Hso Hvo Hzo Hk Hlits p Hi Hco Hhy Hto). apply chain_steps_sub. }
     destruct (fact_ready st p0 Hk p ti Hi Hco Hhy Hto Hl Hcorr Ei) as (tb & a & Htb & Hfc & Hcc & Ha).
     rewrite (Hcorr o tb Htb). cbn [rbind]. rewrite Hfc. cbn [rbind fst snd].
     destruct (chain_typed st p ti Hco Ei) as [_ Hty].
-    rewrite (agg_count_generic st _ aggs ti t Hty Hsc (K_agg_distinct st p0 Hk aggs p Hin Hl Hsc) (Haggs _ _ _ Hin) H).
+    rewrite (agg_count_generic st _ aggs ti t Hty Hsc (K_agg_distinct aggs Hsc) (Haggs _ _ _ Hin) H).
     f_equal. unfold mkT. f_equal. f_equal. apply map_ext. intros a0.
     rewrite (fact_count_len st tb _ a (rows ti) _ Hfc Hl Ha). reflexivity.
   Qed.
@@ -2342,7 +2355,7 @@ Theorem run_eq_sem_ops_l : forall o st p t,
   sem_ops st p = Ok t -> run o st p = Ok t.
 Proof.
   intros o st p t Hso Hvo Hzo _ [Hhy Hanon] Hlits Hk Hco Hto Haggs H.
-  unfold run. apply (top_correct st p Hso Hvo Hzo Hk Hanon Hlits Haggs p (subplans_refl p) Hco Hhy Hto o t H).
+  unfold run. apply (top_correct st p Hso Hvo Hzo Hk Hlits Haggs p (subplans_refl p) Hco Hhy Hto o t H).
 Qed.
 
 
